@@ -71,3 +71,43 @@ def tables(data, fontNumber=0):
 
 def order(data, fontNumber=0):
     return [e[0] for e in directory(data, fontNumber)[1]]
+
+
+# ---------------------------------------------------------------- writer (spec-level)
+def checksum(data):
+    data = bytes(data) + b"\0" * ((-len(data)) % 4)
+    return sum(struct.unpack(">%dL" % (len(data) // 4), data)) & 0xFFFFFFFF
+
+
+def build(sfnt_version, tables):
+    """Assemble a plain sfnt from {tag: bytes} (tags sorted, tables 4-byte aligned, table and
+    whole-file checksums set).  Used to splice hand-written tables into fonts without going
+    through fontTools' writer."""
+    tags = sorted(tables)
+    n = len(tags)
+    es = 0
+    while (1 << (es + 1)) <= n:
+        es += 1
+    sr = (1 << es) * 16
+    ver = sfnt_version if isinstance(sfnt_version, bytes) else sfnt_version.encode("latin-1")
+    header = ver + struct.pack(">HHHH", n, sr, es, n * 16 - sr)
+    off = 12 + 16 * n
+    directory, body = b"", b""
+    datas = {}
+    for t in tags:
+        d = bytes(tables[t])
+        if t == "head" and len(d) >= 12:
+            d = d[:8] + b"\0\0\0\0" + d[12:]
+        datas[t] = d
+    for t in tags:
+        d = datas[t]
+        directory += struct.pack(">4sLLL", t.encode("latin-1"), checksum(d), off, len(d))
+        pad = b"\0" * ((-len(d)) % 4)
+        body += d + pad
+        off += len(d) + len(pad)
+    out = bytearray(header + directory + body)
+    if "head" in datas and len(datas["head"]) >= 12:
+        adj = (0xB1B0AFBA - checksum(bytes(out))) & 0xFFFFFFFF
+        hoff = 12 + 16 * n + sum(len(datas[t]) + ((-len(datas[t])) % 4) for t in tags[:tags.index("head")])
+        out[hoff + 8:hoff + 12] = struct.pack(">L", adj)
+    return bytes(out)
